@@ -52,6 +52,14 @@ def main(ctx):
     if ctx.classes.get("sched/unreached", 0) > len(s):
         raise vlib.Inconclusive("too many schedules not forced: %s" % ctx.classes)
 
+    # the pool without gates on very long streams of one-record batches: batch ownership under real timing
+    res2 = ctx.path("res_stress.ndjson")
+    ctx.harness(["replay", "C05", "--cases", sc, "--out", res2, "--opt", "stress=%d" % (400000 if thorough else 200000),
+                 "--opt", "stressrounds=%d" % (6 if thorough else 2)], timeout=1500)
+    ctx.add_results(res2)
+    for k in ("stress/w2", "stress/w16"):
+        ctx.expect_vacuity("ungated stress " + k, ctx.classes.get(k, 0))
+
     evs = command_events(ctx, thorough)
     validate(ctx, evs)
     ctx.assumptions += ["relational oracle: outputs are compared across configurations, not with an absolute expected value (that is C16/C03)",
@@ -122,6 +130,9 @@ def command_events(ctx, thorough, only=None):
         ("obicount", ["ali.fq"]),
         ("obisummary", ["ali.fq"]),
         ("obicsv", ["--ids", "--sequence", "--count", "ali.fq"]),
+        # standard input (the kseq reader takes its buffers from the slice pool) with records rejected, hence recycled, on the way
+        ("obigrep", ["-l", "100", "-s", "ttag", "<ali.fq"]),
+        ("obiconvert", ["--fasta-output", "<ali.fq"]),
     ]
     if only:
         funcs = [f for f in funcs if f[0] == only]
@@ -137,7 +148,9 @@ def command_events(ctx, thorough, only=None):
         for (cpu, bs, gmp) in cfgs:
             for rep in range(reps if cpu > 1 else 1):
                 env = {"GOMAXPROCS": str(gmp)} if gmp else {}
-                jobs.append({"argv": [b(cmd), "--max-cpu", str(cpu), "--batch-size", str(bs)] + opts, "cwd": d, "env": env})
+                stdin = [o[1:] for o in opts if o.startswith("<")]
+                jobs.append({"argv": [b(cmd), "--max-cpu", str(cpu), "--batch-size", str(bs)] + [o for o in opts if not o.startswith("<")],
+                             "cwd": d, "env": env, "stdin": os.path.join(d, stdin[0]) if stdin else None})
                 meta.append((cmd, " ".join(o if not o.startswith("/") else os.path.basename(o) for o in opts),
                              "cpu=%d bs=%d gomaxprocs=%s rep=%d" % (cpu, bs, gmp, rep)))
     res = ctx.run_many(jobs, timeout=300)
